@@ -5,7 +5,7 @@ import itertools
 
 from ..core import Ctx, Stream, digest, pmap
 from ..layers_common import impl_larch, impl_layer, larch_line, layer_line
-from ..proto import parse_answer, run_driver
+from ..proto import enc, parse_answer, run_driver
 from ..rules_common import run_witnesses
 
 RULE = (
@@ -14,7 +14,12 @@ RULE = (
     "(two layer names, two module names: duplicates are forced, string and list forms both) plus seeded random longer "
     "sequences over multi-character names sharing characters ('mod', 'm', 'dom', 'mo'); each compared with "
     "PtaModel.runLArch (exception class, index of the raising call, str(arch), arch[layer]) and judged against "
-    "PtaSpec.classifyLArch (accepted with exact listing / rejected at call i / unspecified). LayerRule histories: every "
+    "PtaSpec.classifyLArch (accepted with exact listing / rejected at call i / unspecified). Caller-owned argument lists: the "
+    "list objects handed to containing_modules() belong to the caller, who removes / appends / clears and refills them or re-uses "
+    "one buffer for the next layer between builder calls (every sequence of length <= 5 over 9 calls and buffer edits, plus "
+    "random ones over two buffers); each history is judged as the history of the VALUES the lists had when they were passed. "
+    "Every fully accepted history whose layers all have modules must also list exactly the defined layers, in order of "
+    "definition, in layer_mapping.all_layers (also for regex layers sharing one pattern string). LayerRule histories: every "
     "sequence of length <= 4 over the 14-call LayerRule vocabulary and all prefixes of complete chains with one call "
     "inserted, judged against PtaSpec.classifyLayerRule. distinct_nontrivial = distinct histories the specification "
     "rejects at some call."
@@ -24,22 +29,124 @@ LVOCAB = [("layer", "a"), ("layer", "b"), ("cms", "x"), ("cms", "y"), ("cml", ["
           ("rx", "r.*"), ("with",)]
 
 
-def judge_larch(ctx, stream, seqs):
-    impl = pmap(impl_larch, seqs, ctx.jobs, chunk=2000)
-    ans = run_driver([larch_line(s) for s in seqs])
-    for ops, i, a in zip(seqs, impl, ans):
+# --- caller-owned argument lists -----------------------------------------------------------------------------------
+# additional op forms (the caller's side of the history; they are no builder calls):
+#   ("buf", k, "new", [..])   the caller binds buffer k to a fresh list object with these names
+#   ("buf", k, "set", [..])   buffer k is cleared and refilled IN PLACE (the list object stays the same)
+#   ("buf", k, "app", name)   name appended to buffer k in place
+#   ("buf", k, "rem", name)   name removed from buffer k in place (no-op if it is not in there)
+#   ("cmb", k)                containing_modules(<the list object that is buffer k>)
+
+
+def _buf_edit(bufs, op):
+    _, k, how, arg = op
+    if how == "new":
+        bufs[k] = list(arg)
+        return
+    b = bufs.setdefault(k, [])
+    if how == "set":
+        b.clear()
+        b.extend(arg)
+    elif how == "app":
+        b.append(arg)
+    elif how == "rem" and arg in b:
+        b.remove(arg)
+
+
+def plain_history(ops):
+    """the builder calls of a history with caller-owned lists, each containing_modules(<buffer>) with the VALUE the buffer had
+    at the moment of the call - what the library is to see, since a call's argument is the argument at the time of the call"""
+    bufs, out = {}, []
+    for op in ops:
+        if op[0] == "buf":
+            _buf_edit(bufs, op)
+        elif op[0] == "cmb":
+            out.append(("cml", list(bufs.get(op[1], []))))
+        else:
+            out.append(op)
+    return out
+
+
+def impl_larch_caller(ops) -> str:
+    """as layers_common.impl_larch (same result format; call indices count builder calls only), for histories that may contain
+    caller-side buffer edits; in addition layer_mapping.all_layers is compared with the definition history when every call was
+    accepted and no layer is left without modules"""
+    from ..impl import LayeredArchitecture, err_kind
+
+    a = LayeredArchitecture()
+    bufs, names, i = {}, [], 0
+    for op in ops:
+        if op[0] == "buf":
+            _buf_edit(bufs, op)
+            continue
+        try:
+            if op[0] == "with":
+                a = a.with_layer()
+            elif op[0] == "layer":
+                a = a.layer(op[1])
+                if op[1] not in names:
+                    names.append(op[1])
+            elif op[0] == "cmb":
+                a = a.containing_modules(bufs.setdefault(op[1], []))       # the caller's own list object
+            elif op[0] in ("cms", "cml"):
+                a = a.containing_modules(op[1])
+            elif op[0] == "rx":
+                a = a.have_modules_with_names_matching(op[1])
+        except Exception as e:  # noqa: BLE001
+            return f"ERR:{err_kind(e)} I={i}"
+        i += 1
+        try:
+            _ = a.layer_mapping
+        except Exception:  # noqa: BLE001
+            pass
+    listing = []
+    extra = ""
+    try:
+        complete = True
+        for n in names:
+            fs = a[n]
+            complete = complete and len(fs) > 0
+            listing.append(enc(n) + "~" + ",".join(("R:" if f.identifier_is_regex else "N:") + enc(f.identifier) for f in fs))
+            via_mapping = [x.identifier for x in a.layer_mapping.get_module_filters(n)]
+            if via_mapping != [f.identifier for f in fs]:
+                return f"OK:MAPPING-DIFFERS:{enc(n)}:{','.join(enc(x) for x in via_mapping)} I={i}"
+        s = str(a)
+        want = "Layered Architecture: " + "; ".join(f"Layer {n}: [{', '.join(f.identifier for f in a[n])}]" for n in names)
+        if s != want:
+            extra = " STR-MISMATCH:" + enc(s)
+        elif complete:
+            got = list(a.layer_mapping.all_layers)
+            if got != names:
+                extra = " LAYERS-MISMATCH:" + ",".join(enc(str(x)) for x in got)
+    except Exception as e:  # noqa: BLE001  (the object the history ends with does not list its layers)
+        return f"OK:UNLISTABLE:{type(a).__name__}:{type(e).__name__} I={i}"
+    return "OK:" + ";".join(listing) + f" I={i}" + extra
+
+
+def judge_larch(ctx, stream, seqs, impl_fn=impl_larch, caller_lists=False):
+    impl = pmap(impl_fn, seqs, ctx.jobs, chunk=2000)
+    plain = [plain_history(s) for s in seqs] if caller_lists else seqs
+    ans = run_driver([larch_line(s) for s in plain])
+    for ops, pl, i, a in zip(seqs, plain, impl, ans):
         a = parse_answer(a)
         stream.evaluations += 1
         ibody, _, iidx = i.partition(" I=")
         iidx, _, extra = iidx.partition(" ")
         m, s = a.get("M", "?"), a.get("S", "NA")
         stream.count("spec:" + s.split(":")[0])
+        if caller_lists:
+            edits = sum(1 for k, op in enumerate(ops) if op[0] == "buf" and op[2] != "new"
+                        and any(o == ("cmb", op[1]) for o in ops[:k]))
+            stream.count("in-place edits of a list after it was passed:" + str(min(edits, 3)))
         if s.startswith("REJ"):
             stream.nontrivial.add(digest(ops))
         if len(ctx.samples) < 2 and s.startswith("REJ") and len(ops) >= 4:
-            ctx.samples.append({"line": larch_line(ops), "impl": i, "answer": a})
+            ctx.samples.append({"line": larch_line(pl), "impl": i, "answer": a})
         bad = None
-        if extra:
+        if extra.startswith("LAYERS-MISMATCH"):
+            bad = ("every call was accepted and every layer has modules, but layer_mapping.all_layers does not list exactly the "
+                   "defined layers in order of definition: " + extra)
+        elif extra:
             bad = "str(architecture) does not list exactly the supplied layers/modules: " + extra
         elif s.startswith("REJ"):
             want = s[4:]
@@ -55,16 +162,88 @@ def judge_larch(ctx, stream, seqs):
                 if ids != s[3:]:
                     bad = f"accepted definition lists {ids}, supplied {s[3:]}"
         if bad:
-            ctx.violations.append({"kind": "property-violation", "what": bad, "line": larch_line(ops), "impl": i, "model": m, "spec": s,
-                                   "python": f"from harness.layers_common import build_larch; print(build_larch({ops!r}))"})
+            rec = {"kind": "property-violation", "what": bad, "line": larch_line(pl), "impl": i, "model": m, "spec": s,
+                   "python": f"from harness.layers_common import build_larch; print(build_larch({ops!r}))"}
+            if impl_fn is impl_larch_caller:
+                rec["python"] = f"from harness.props.c16 import impl_larch_caller; print(impl_larch_caller({ops!r}))"
+            if caller_lists:
+                rec["what"] += ("  [the lists passed to containing_modules are the caller's own objects, edited in place / re-used "
+                                "between the calls; 'line' shows the values they had when passed]")
+                rec["calls"] = [list(o) for o in ops]
+            ctx.violations.append(rec)
             if len(ctx.violations) >= 5:
                 return
             continue
         if ibody != m or iidx != a.get("I"):
             rec = {"kind": "correspondence-broken", "what": "correspondence impl = PtaModel.runLArch (LayeredArchitecture histories)",
-                   "theorem": "Pta.C16.* are statements about PtaModel.LArch.step", "line": larch_line(ops), "impl": i, "model": m,
+                   "theorem": "Pta.C16.* are statements about PtaModel.LArch.step", "line": larch_line(pl), "impl": i, "model": m,
                    "model_index": a.get("I")}
+            if caller_lists:
+                rec["calls"] = [list(o) for o in ops]
             (ctx.drift if s == "NA" else ctx.broken).append(rec)
+
+
+CALLER_INIT = [("buf", 0, "new", ["x", "y"])]
+CALLER_VOCAB = [("layer", "a"), ("layer", "b"), ("cmb", 0), ("buf", 0, "rem", "y"), ("buf", 0, "app", "z"), ("buf", 0, "set", ["z"]),
+                ("cms", "y"), ("cms", "z"), ("rx", "r.*")]
+
+
+def random_caller_history(rng):
+    """a definition loop as a caller writes it: per layer the modules come as a string, a fresh list, a pattern, or one of two
+    list objects the caller keeps editing in place / re-using; few names and patterns, so that names recur across layers"""
+    names = ["mod", "m", "dom", "mo", "mod.x", "o"]
+    pats = ["r.*", "m.*", "mod"]
+    ops = []
+
+    def edit():
+        k = rng.randrange(2)
+        how = rng.random()
+        if how < 0.35:
+            ops.append(("buf", k, "set", rng.sample(names, rng.randint(1, 3))))
+        elif how < 0.6:
+            ops.append(("buf", k, "rem", rng.choice(names)))
+        elif how < 0.85:
+            ops.append(("buf", k, "app", rng.choice(names)))
+        elif how < 0.95:
+            ops.append(("buf", k, "new", rng.sample(names, rng.randint(0, 2))))
+        else:
+            ops.append(("buf", k, "set", []))
+
+    layer_names = rng.choice(["abcdef", "abc", "ab"])
+    ops.append(("buf", 0, "new", rng.sample(names, rng.randint(1, 3))))
+    for _ in range(rng.randint(2, 5)):
+        if rng.random() < 0.92:
+            ops.append(("layer", rng.choice(layer_names)))
+        for _ in range(rng.choice([0, 0, 1, 1, 2])):
+            edit()
+        r = rng.random()
+        if r < 0.45:
+            ops.append(("cmb", rng.randrange(2)))
+        elif r < 0.58:
+            ops.append(("cms", rng.choice(names)))
+        elif r < 0.70:
+            ops.append(("cml", rng.sample(names, rng.randint(1, 2))))
+        elif r < 0.94:
+            ops.append(("rx", rng.choice(pats)))
+        elif r < 0.97:
+            ops.append(("with",))
+        for _ in range(rng.choice([0, 1, 1, 2])):
+            edit()
+    return ops
+
+
+def caller_owned_lists(ctx, maxlen):
+    s = Stream(ctx, f"LayeredArchitecture: caller-owned argument lists edited in place / re-used between calls - all sequences of "
+                    f"length <= {maxlen} over {len(CALLER_VOCAB)} calls and buffer edits (buffer starts as ['x', 'y'])", exhaustive=True)
+    seqs = [CALLER_INIT + list(t) for n in range(0, maxlen + 1) for t in itertools.product(CALLER_VOCAB, repeat=n)]
+    judge_larch(ctx, s, seqs, impl_larch_caller, caller_lists=True)
+    s.finish()
+    if ctx.violations:
+        return
+    s = Stream(ctx, "LayeredArchitecture: caller-owned argument lists, random definition loops over two buffers; patterns shared between layers")
+    rng = ctx.rng("larch-caller-lists")
+    judge_larch(ctx, s, [random_caller_history(rng) for _ in range(ctx.size(3000, 40000))], impl_larch_caller, caller_lists=True)
+    s.finish()
 
 
 def _after_errors(ops):
@@ -199,7 +378,8 @@ def run(ctx: Ctx):
     for n in range(0, L + 1):
         seqs = [list(t) for t in itertools.product(LVOCAB, repeat=n)]
         for i in range(0, len(seqs), 100000):
-            judge_larch(ctx, s, seqs[i : i + 100000])
+            # the short histories are also observed through layer_mapping.all_layers
+            judge_larch(ctx, s, seqs[i : i + 100000], impl_larch_caller if n <= 4 else impl_larch)
         if ctx.violations:
             break
     s.finish()
@@ -230,8 +410,10 @@ def run(ctx: Ctx):
             else:
                 seq.append(("layer", rng.choice("abcdef")))
         seqs.append(seq)
-    judge_larch(ctx, s, seqs)
+    judge_larch(ctx, s, seqs, impl_larch_caller)
     s.finish()
+    if not ctx.violations:
+        caller_owned_lists(ctx, 5 if quick else 6)
     if not ctx.violations:
         s = Stream(ctx, "LayeredArchitecture: the same builder object used on after rejected calls vs the accepted calls alone")
         short = [list(t) for n in range(2, 5) for t in itertools.product(LVOCAB, repeat=n)]
